@@ -142,8 +142,17 @@ def spawn_defers(e: Engine, rep: Report, rule: str, pools: Set[str]):
         for lab in (True, False):
             for pol, k in atoms_of_test(n.ast, lab, n.frame):
                 if 'getcurrent' in k:
-                    holder_atoms.add(k)
-                    holder_ok = holder_ok or 'inline getcurrent() test'
+                    # an inline test counts when it looks the greenlet up
+                    # in every bounded pool (the pool being spawned into
+                    # alone leaves the wait for the OTHER pool's slot)
+                    src0 = ast.unparse(n.ast)
+                    fsrc = ast.unparse(n.frame.ctx.func.node)
+                    if all(('%s_pool' % p) in src0 for p in pools) or (
+                            len(pools) > 1 and
+                            all(('%s_pool' % p) in fsrc for p in pools) and
+                            ' for ' in src0):
+                        holder_atoms.add(k)
+                        holder_ok = holder_ok or 'inline getcurrent() test'
         for c in ast.walk(n.ast):
             if isinstance(c, ast.Call) and isinstance(c.func, ast.Attribute) \
                     and isinstance(c.func.value, ast.Name) and \
